@@ -8,6 +8,7 @@ import (
 	"fmt"
 	"math/rand"
 	"runtime"
+	"runtime/debug"
 	"sort"
 	"strings"
 	"time"
@@ -89,6 +90,10 @@ func genIDs(rng *rand.Rand, class string, n int) []uint64 {
 }
 
 func runRings(raw json.RawMessage) (any, error) {
+	// a lookup that is forwarded round the ring for ever is a runaway recursion in the direct wiring:
+	// with a 64 MiB stack limit it ends as a crash in repository code within seconds instead of
+	// eating gigabytes until the watchdog
+	debug.SetMaxStack(64 << 20)
 	var cases []ringCase
 	if err := json.Unmarshal(raw, &cases); err != nil {
 		return nil, err
@@ -115,6 +120,7 @@ func runRing(c ringCase, rep *batch.Report) batch.CaseResult {
 	}
 	lab := ringlab.New(ringlab.Options{Mode: mode, Seed: c.Seed})
 	defer lab.Close()
+	lab.SetHopLimit(int64(2*len(c.IDs) + 64)) // proxied wiring: a lookup gets this many hops
 	rng := rand.New(rand.NewSource(c.Seed))
 	order := rng.Perm(len(c.IDs))
 	var members []*ringlab.Member
